@@ -12,3 +12,5 @@ import SquidModel.Properties.C02
 #print axioms SquidModel.C02.abort_only_after_aborted_production
 #print axioms SquidModel.C02.finished_sender_sent_everything
 #print axioms SquidModel.C02.chunked_upstream_wire_is_in_grammar
+#print axioms SquidModel.C02.chunked_request_body_is_exact
+#print axioms SquidModel.C02.chunked_request_complete_is_exact
